@@ -9,8 +9,9 @@ class Grammar:
     """terms: list of (name, prec, assoc) ; assoc in 'none','ltor','rtol'
        rules: list of dict(lhs=str, rhs=[str], prec=int (explicit [n], 0 = none), f=str functor kind)
        the symbol name 'error' in a right side denotes the error recovery token"""
-    def __init__(self, name, nterms, terms, root, rules, note=''):
+    def __init__(self, name, nterms, terms, root, rules, note='', tkinds=None):
         self.name = name; self.nterms = list(nterms); self.root = root; self.note = note
+        self.tkinds = tkinds   # None: token level (custom terms); else per term dict(kind='char'|'str'|'regex', ...) lexed by the generated lexer
         self.terms = [t if isinstance(t, tuple) else (t, 0, 'none') for t in terms]
         self.rules = []
         for r in rules:
